@@ -66,6 +66,10 @@ ASSUMPTIONS = [
     "always supplied, key material never travels in a creating response)",
     "the version of an Invalid Message answer to a frame the decoder refused is left open "
     "(DESIGN.md C12: the request's version is unknown to the decoder)",
+    "exploration bound: valid requests asking the crypto backend for more than a 4096 bit key "
+    "pair, 100000 PBKDF2 iterations or 64 KiB of derived/created key material are refused by a "
+    "stand-in in front of the real backend (a mutation can produce such requests; they would run "
+    "for hours and are outside the property)",
 ]
 SHRINK_BUDGET = 60
 
@@ -618,9 +622,44 @@ class SpyConn(H.FakeConnection):
             self.obs.sent.setdefault(k, []).append(bytes(b))
 
 
+def bound_crypto(engine):
+    """Bounds of the exploration, not part of the oracle: a mutation can turn a valid request into
+    another valid request that asks for hours of work (RSA key pair of 60000 bits, PBKDF2 with
+    2**31 iterations).  Such requests are refused by the crypto backend stand-in with a KMIP error,
+    like any other unsupported parameter; everything else goes to the real backend."""
+    ce = engine._cryptography_engine
+    if getattr(ce, "_c12_bounded", False):
+        return
+    real_pair, real_derive, real_sym = ce.create_asymmetric_key_pair, ce.derive_key, \
+        ce.create_symmetric_key
+
+    def pair(algorithm, length, *a, **kw):
+        if isinstance(length, int) and length > 4096:
+            raise kexc.InvalidField("harness bound: key pair length above 4096")
+        return real_pair(algorithm, length, *a, **kw)
+
+    def sym(algorithm, length, *a, **kw):
+        if isinstance(length, int) and length > 65536:
+            raise kexc.InvalidField("harness bound: key length above 65536")
+        return real_sym(algorithm, length, *a, **kw)
+
+    def derive(*a, **kw):
+        it = kw.get("iteration_count")
+        ln = kw.get("derivation_length")
+        if (isinstance(it, int) and it > 100000) or (isinstance(ln, int) and ln > 65536):
+            raise kexc.InvalidField("harness bound: derivation cost")
+        return real_derive(*a, **kw)
+
+    ce.create_asymmetric_key_pair = pair
+    ce.create_symmetric_key = sym
+    ce.derive_key = derive
+    ce._c12_bounded = True
+
+
 def drive(server, stream, chunks, copy_at=None, copy_to=None):
     """Run the real message loop over the stream as KmipSession.run does; returns Obs."""
     install_spies()
+    bound_crypto(server.engine)
     frames, _ = split_frames(stream)
     obs = Obs(stream, frames)
     conn = SpyConn(stream, chunks, H.make_cert(("alice",), "client"), obs, server, copy_at, copy_to)
@@ -1359,6 +1398,8 @@ def worker_fixed():
 # ------------------------------------------------------------------------------ part C: atheris
 def _fuzz_start(ctx, corpus_kind):
     runs = int(os.environ.get("VERIF_C12_FUZZ_RUNS", "60000"))
+    if corpus_kind == "empty":
+        runs *= 2           # inputs stay tiny until a frame header is found: cheap iterations
     out = tempfile.mkdtemp(prefix="c12-fuzz-%s-" % corpus_kind)
     cmd = [sys.executable, "-m", "vlib.c12_fuzz", out, str(ctx.seed), str(runs), corpus_kind]
     log = open(os.path.join(out, "log.txt"), "wb")
@@ -1381,6 +1422,11 @@ def _fuzz_collect(fz, col):
         fz["proc"].wait()
         note = "stopped at the %ds time limit" % fz["limit"]
     fz["log"].close()
+    try:
+        with open(os.path.join(fz["out"], "workdir.txt")) as f:
+            shutil.rmtree(f.read().strip(), ignore_errors=True)
+    except OSError:
+        pass
     tag = "fuzz_%s_" % fz["kind"]
     path = os.path.join(fz["out"], "findings.json")
     if not os.path.exists(path):
@@ -1419,7 +1465,7 @@ def run(ctx):
     dicts = core.run_sharded("vlib.props.c12", "worker_fixed", [()])
     dicts += core.run_sharded("vlib.props.c12", "worker_sweep",
                               [(s, NSHARDS, ctx.seed, keep) for s in range(NSHARDS)])
-    per = ctx.n(130, 4000)
+    per = ctx.n(130, 2500)
     dicts += core.run_sharded("vlib.props.c12", "worker_random",
                               [(core.derive_seed(ctx.seed, "c12-rnd", s), per)
                                for s in range(NSHARDS)])
